@@ -6,7 +6,7 @@ use inputlayer::{Config, StorageEngine, Tuple, Value};
 use std::sync::{Arc, Mutex};
 
 #[derive(Clone, Debug)]
-pub enum Op { Insert(usize, Vec<i64>), Delete(usize, Vec<i64>), Query(usize), ReadC(usize) }
+pub enum Op { Insert(usize, Vec<i64>), Delete(usize, Vec<i64>), Query(usize), ReadC(usize), RegRule(usize, usize), DropRule(usize), QueryV(usize) }
 
 pub fn parse_progs(s: &str) -> Option<Vec<Vec<Op>>> {
     s.split('/').map(|t| {
@@ -17,7 +17,9 @@ pub fn parse_progs(s: &str) -> Option<Vec<Vec<Op>>> {
             let mut it = r.split('.');
             let rel: usize = it.next()?.parse().ok()?;
             let ts: Option<Vec<i64>> = it.map(|x| x.parse().ok()).collect();
-            match k { "i" => Some(Op::Insert(rel, ts?)), "d" => Some(Op::Delete(rel, ts?)), "q" => Some(Op::Query(rel)), "c" => Some(Op::ReadC(rel)), _ => None }
+            match k { "i" => Some(Op::Insert(rel, ts?)), "d" => Some(Op::Delete(rel, ts?)), "q" => Some(Op::Query(rel)), "c" => Some(Op::ReadC(rel)),
+                "g" => { let t = ts?; if t.len() == 1 && t[0] >= 0 { Some(Op::RegRule(rel, t[0] as usize)) } else { None } }
+                "x" => Some(Op::DropRule(rel)), "w" => Some(Op::QueryV(rel)), _ => None }
         }).collect::<Option<Vec<Op>>>()
     }).collect()
 }
@@ -26,6 +28,7 @@ pub fn show_progs(p: &[Vec<Op>]) -> String {
     p.iter().map(|t| if t.is_empty() { "-".to_string() } else { t.iter().map(|o| match o {
         Op::Insert(r, v) => format!("i{r}{}", l(v)), Op::Delete(r, v) => format!("d{r}{}", l(v)),
         Op::Query(r) => format!("q{r}"), Op::ReadC(r) => format!("c{r}"),
+        Op::RegRule(v, r) => format!("g{v}.{r}"), Op::DropRule(v) => format!("x{v}"), Op::QueryV(v) => format!("w{v}"),
     }).collect::<Vec<_>>().join(",") }).collect::<Vec<_>>().join("/")
 }
 
@@ -44,15 +47,27 @@ pub fn readc(se: &StorageEngine, r: usize) -> String {
     }
 }
 
+pub fn view(v: usize) -> String { format!("v{v}") }
+
+/// `q(X) <- v<v>(X)` through the snapshot's own rule list
+pub fn query_view(se: &StorageEngine, v: usize) -> String {
+    match se.execute_query_with_rules_tuples_on(KG, &format!("q(X) <- {}(X)", view(v))) {
+        Ok(ts) => { let mut x: Vec<i64> = ts.iter().map(id_of).collect(); x.sort(); x.dedup(); format!("r{}", ids(&x)) }
+        Err(_) => "err".into(),
+    }
+}
+
 pub const ACTIVE: [&str; 4] = ["se.insert.after_time", "se.insert.after_persist", "se.delete.after_time", "se.delete.after_persist"];
 
 /// run one `<op> inc=.. R=.. T=.. | sched` request
 pub fn exec(req: &str) -> String {
     let (head, tail) = match req.split_once(" | ") { Some((h, t)) => (h, t), None => (req.trim_end_matches(" |"), "") };
     let a: Vec<&str> = head.split(' ').collect();
-    if a.len() != 4 { return "bad-request".into(); }
+    if a.len() != 4 && a.len() != 5 { return "bad-request".into(); }
     let get = |i: usize, k: &str| a[i].strip_prefix(k).and_then(|x| x.strip_prefix('='));
-    let (inc, nr, progs) = match (get(1, "inc").and_then(|x| x.parse::<u8>().ok()), get(2, "R").and_then(|x| x.parse::<usize>().ok()), get(3, "T").and_then(parse_progs)) {
+    // optional `V=<#views>` before `T=`
+    let (nv, ti) = if a.len() == 5 { match get(3, "V").and_then(|x| x.parse::<usize>().ok()) { Some(v) => (v, 4), None => return "bad-request".into() } } else { (0, 3) };
+    let (inc, nr, progs) = match (get(1, "inc").and_then(|x| x.parse::<u8>().ok()), get(2, "R").and_then(|x| x.parse::<usize>().ok()), get(ti, "T").and_then(parse_progs)) {
         (Some(i), Some(r), Some(t)) => (i != 0, r, t), _ => return "bad-request".into() };
     let sched: Option<Vec<usize>> = tail.split(' ').filter(|x| !x.is_empty() && *x != ";" && *x != "|").map(|x| x.parse().ok()).collect();
     let sched = match sched { Some(s) => s, None => return "bad-request".into() };
@@ -88,6 +103,14 @@ pub fn exec(req: &str) -> String {
                         Ok(ts) => { let mut v: Vec<i64> = ts.iter().map(id_of).collect(); v.sort(); format!("r{}", ids(&v)) }
                         Err(_) => "err".into() },
                     Op::ReadC(r) => readc(&se, *r),
+                    Op::RegRule(v, r) => match inputlayer::statement::parse_rule_definition(&format!("{}(X) <- {}(X)", view(*v), rel(*r))) {
+                        Ok(def) => match se.register_rule_in(KG, &def) {
+                            Ok(inputlayer::rule_catalog::RuleRegisterResult::Created) => "c".into(),
+                            Ok(inputlayer::rule_catalog::RuleRegisterResult::RuleAdded(n)) => format!("a{n}"),
+                            Err(_) => "err".into() },
+                        Err(_) => "err".into() },
+                    Op::DropRule(v) => match se.drop_rule_in(KG, &view(*v)) { Ok(()) => "x".into(), Err(_) => "err".into() },
+                    Op::QueryV(v) => query_view(&se, *v),
                 })).unwrap_or_else(|_| "panic".into());
                 res.lock().unwrap()[t].push((w.step_no(), out));
             }
@@ -97,7 +120,13 @@ pub fn exec(req: &str) -> String {
     sc.wait_all_parked();
     let observe = |se: &StorageEngine| -> String {
         match se.get_snapshot_for(KG) {
-            Ok(s) => (0..nr).map(|r| ids_e(&s.input_tuples.get(&rel(r)).map(|v| v.iter().map(id_of).collect::<Vec<_>>()).unwrap_or_default())).collect::<Vec<_>>().join("|"),
+            Ok(s) => {
+                let facts = (0..nr).map(|r| ids_e(&s.input_tuples.get(&rel(r)).map(|v| v.iter().map(id_of).collect::<Vec<_>>()).unwrap_or_default())).collect::<Vec<_>>().join("|");
+                // the rule list the snapshot carries: one entry per clause  <head>:<first body relation>
+                let mut rl: Vec<String> = s.rules.iter().map(|r| format!("{}:{}", r.head.relation, r.body.iter().find_map(|b| match b { inputlayer::ast::BodyPredicate::Positive(a) => Some(a.relation.clone()), _ => None }).unwrap_or_default())).collect();
+                rl.sort();
+                format!("{}~{}", facts, if rl.is_empty() { "_".to_string() } else { rl.join(",") })
+            }
             Err(_) => "err".into(),
         }
     };
@@ -138,14 +167,15 @@ pub fn exec(req: &str) -> String {
         let res = res.lock().unwrap();
         let res_s = res.iter().map(|l| { let v: Vec<String> = l.iter().filter(|(k, _)| *k < kd).map(|(k, o)| format!("{k}:{o}")).collect(); if v.is_empty() { "-".to_string() } else { v.join(",") } }).collect::<Vec<_>>().join("/");
         std::mem::forget(se.clone());
-        return format!("res={} obs={} fin=dead@{}", res_s, obs.join(" "), kd);
+        return format!("res={} obs={} fin=dead@{} vfin=-", res_s, obs.join(" "), kd);
     }
     for h in handles { let _ = h.join(); }
     Sched::uninstall();
     let fin = if inc { (0..nr).map(|r| readc(&se, r)).collect::<Vec<_>>().join("|") } else { "-".into() };
     let res = res.lock().unwrap();
     let res_s = res.iter().map(|l| if l.is_empty() { "-".to_string() } else { l.iter().map(|(k, o)| format!("{k}:{o}")).collect::<Vec<_>>().join(",") }).collect::<Vec<_>>().join("/");
-    format!("res={} obs={} fin={}", res_s, obs.join(" "), fin)
+    let vfin = if nv == 0 { "-".to_string() } else { (0..nv).map(|v| query_view(&se, v)).collect::<Vec<_>>().join("|") };
+    format!("res={} obs={} fin={} vfin={}", res_s, obs.join(" "), fin, vfin)
 }
 
 /// length of each operation in steps (for schedule generation only)
